@@ -100,14 +100,18 @@ func (s authStateNone) receiveDHCommitMessage(c *Conversation, msg []byte) (auth
 }
 
 func (s authStateAwaitingRevealSig) receiveDHCommitMessage(c *Conversation, msg []byte) (authState, messageWithHeader, error) {
+	//We only forget the old DH-commit once we know this one is well formed
+	dhCommitMsg := dhCommit{}
+	if err := dhCommitMsg.deserialize(msg); err != nil {
+		return s, nil, err
+	}
+
 	//As per spec, we forget the old DH-commit (received before we sent the DH-Key)
 	//and use this one, so we forget all the keys
 	c.ake.keys = c.ake.keys.wipeAndKeepRevealKeys()
 	c.ake.wipeGX()
 
-	if err := c.processDHCommit(msg); err != nil {
-		return s, nil, err
-	}
+	c.storeDHCommit(dhCommitMsg)
 
 	dhKeyMsg, err := c.wrapMessageHeader(msgTypeDHKey, c.serializeDHKey())
 	if err != nil {
